@@ -47,13 +47,14 @@ type Rule struct {
 // Ctx is the per-rule evaluation context.
 type Ctx struct {
 	*Prog
-	loaderMemo map[*ssa.Function]string
-	F          *Facts
-	rule       *Rule
-	obs        []Obligation
-	emMemo     []*Emission
-	replayMemo *replayModel
-	mapUpd     map[ssa.Value][]*ssa.MapUpdate
+	loaderMemo  map[*ssa.Function]string
+	F           *Facts
+	rule        *Rule
+	obs         []Obligation
+	emMemo      []*Emission
+	replayMemo  *replayModel
+	csvFlagMemo map[*ssa.Global]string
+	mapUpd      map[ssa.Value][]*ssa.MapUpdate
 }
 
 func (c *Ctx) add(v Verdict, fn, construct, pos, why string, path ...string) {
